@@ -1,6 +1,6 @@
 (* C08 - Presolve verdicts are true; postsolve maps optimal solutions to optimal ones.
 
-   What is proved here (statements only; proofs in Postsolve_Proofs RowSingleton_Proofs FreeColSingleton_Proofs.v): for the post-solve steps of SPxMainSM, modelled in
+   What is proved here (statements only; proofs in Postsolve_Proofs RowSingleton_Proofs FreeColSingleton_Proofs Doubleton_Proofs.v): for the post-solve steps of SPxMainSM, modelled in
    PostsolveModel.v case split by case split (the model is replayed against `PostStep::execute` on every run of the
    check), and for LPs / vectors of EVERY dimension:
      - identities:   if  s = A'x  and  r = c' - A'^T y  hold for the LP after the reduction, then after `execute` they hold
@@ -14,7 +14,7 @@
    The simplifier works in minimisation form; comparisons are the exact instance of the model (`exact_cmps`) wherever a
    theorem depends on them, most statements hold for every comparison record `c`. *)
 From Coq Require Import QArith Qabs List Bool Lia.
-From SV Require Import Vec LP Cert Cert_Proofs PostsolveModel Postsolve_Proofs RowSingleton_Proofs FreeColSingleton_Proofs.
+From SV Require Import Vec LP Cert Cert_Proofs PostsolveModel Postsolve_Proofs RowSingleton_Proofs FreeColSingleton_Proofs Doubleton_Proofs.
 Import ListNotations.
 Local Open Scope Q_scope.
 
@@ -190,6 +190,25 @@ Example C08_FreeColSingleton_example :
   let t' := exec_FreeColSingleton (exact_cmps (inject_Z (10 ^ 100))) 2 1 2 1 3 4 true true (sp_row P 1) t in
   prim_ident_b R t && dual_ident_b R t && prim_ident_b P t' && dual_ident_b P t' && Qeq_bool (gx t' 2) 2 && Qeq_bool (gy t' 1) (3 # 2) = true.
 Proof. vm_compute. reflexivity. Qed.
+
+(* DoubletonEquationPS: when the step fires (the transferred bound of x_k is active) it chooses the multiplier of the equation row
+   i so that column k gets reduced cost 0, and prices the singleton column j with its own coefficient a_ij: both dual identities
+   hold for the two columns, nothing else is touched.  For every comparison record and every recorded datum. *)
+Theorem C08_DoubletonEquation_dual_update : forall c j k i ms jf jObj kObj aij slo sup loj col t,
+  dbl_fires c j k ms slo sup t = true -> j <> k -> ~ sget col i == 0 ->
+  let t' := exec_DoubletonEquation c j k i ms jf jObj kObj aij slo sup loj col t in
+  gr t' k == kObj - (sdot_skip col i (sy t') + sget col i * gy t' i) /\
+  gr t' j == jObj - aij * gy t' i /\
+  (forall l, l <> i -> gy t' l = gy t l) /\ (forall q, q <> j -> q <> k -> gr t' q = gr t q).
+Proof. exact DoubletonEquation_dual_update. Qed.
+Print Assumptions C08_DoubletonEquation_dual_update.
+
+Example C08_DoubletonEquation_example :
+  let t := mkst [0; 2] [0; 0] [0; 0] [5; 1] [ON_LOWER; ON_LOWER] [BASIC; BASIC] in
+  dbl_fires (exact_cmps (inject_Z (10 ^ 100))) 0 1 false true false t = true /\
+  let t' := exec_DoubletonEquation (exact_cmps (inject_Z (10 ^ 100))) 0 1 0 false false 5 1 3 true false 0 [(0%nat, 2); (1%nat, 1)] t in
+  Qeq_bool (gy t' 0) (1 # 2) && Qeq_bool (gr t' 1) 0 && Qeq_bool (gr t' 0) (7 # 2) && vstat_eqb (gcs t' 1) BASIC = true.
+Proof. vm_compute. split; reflexivity. Qed.
 
 (* ---------------------------------------------------------------------------------------------------------------- *)
 (* basis count of further steps (dimensions n1, m1 of the reduced LP) *)
